@@ -60,6 +60,20 @@ func checkHeadCacheRestoredOnFailedAppend(c *an.Ctx, id string) {
 			if !isHeadWrite(in2) {
 				return false
 			}
+			// a swap back compares with the pointer the move stored: it has to be that very pointer (a helper
+			// that stores the address of its own copy of the header leaves the swap without effect)
+			if rc := in2.(*ssa.Call); strings.HasSuffix(an.StaticFullName(&rc.Call), "CompareAndSwap") && len(rc.Call.Args) >= 2 {
+				same := false
+				for _, m := range moves {
+					mc := m.(*ssa.Call)
+					if strings.HasSuffix(an.StaticFullName(&mc.Call), ").Store") && len(mc.Call.Args) >= 2 && mc.Call.Args[1] == rc.Call.Args[1] {
+						same = true
+					}
+				}
+				if !same {
+					return false
+				}
+			}
 			// after the call
 			if in2.Block() == ac.Block() {
 				after := false
